@@ -33,7 +33,15 @@ RULE = ("one case = one history of saves (categories Op/OpX/Op_Y/O/Op_ or, every
         "Pacific/Pago_Pago west, Asia/Kolkata, Pacific/Kiritimati east of UTC) - same expected answer as on a UTC host; "
         "categories that are glob patterns when read as one (Handler[Order], Repo[int], a[b]c, x*y, q?, [, a[!b], [a-c]x, "
         "*, []], Op[_]Y) next to the categories those patterns would select, on all three cassettes x plain / filtered / "
-        "limited / default / windowed lookup x key prefixes + a random stream of histories over them; non-trivial = the lookup "
+        "limited / default / windowed lookup x key prefixes + a random stream of histories over them; windows of 3-8 day "
+        "folders whose matches all sit in ONE or two of them (first / middle / last day; the other folders empty) x limit 2, 3, "
+        "5, more than the matches, none x ordered / scripted round-robin x plain / filtered / default lookup, explicit end "
+        "and end = now (more day prefixes than the limit and fewer: min(limit, matches) either way); lookups INTERLEAVED with "
+        "the saves: the case's lookup is also made at given points of the history (answers discarded) through the objects "
+        "that make the final lookup - a second cassette object on the same directory / bucket, or the saving objects - and "
+        "recordings those earlier lookups saw are saved again with other metadata (tenant a -> b, b -> a, incomplete -> "
+        "complete, key dropped) x filters / default lookup / limit + copies of random-stream lookups over histories with "
+        "re-saves: the answer depends on what is saved now; non-trivial = the lookup "
         "selects a non-empty proper subset of the stored recordings; distinct = distinct (history, lookup)")
 EXHAUSTIVE = {"quick": False, "thorough": False}
 ASSUMPTIONS = [
@@ -400,6 +408,86 @@ def glob_stream():
     return out
 
 
+def sparse_window_stream():
+    """Deterministic (round 7): windows of several day folders most of which hold NO match - the matches sit in one or
+    two day folders (first / middle / last day of the window; the normal case of "the last 7 days" on a service that was
+    recorded today only) - x limits 2, 3, 5, more than the matches, none x ordered / scripted round-robin x plain /
+    filtered / default lookup; key prefixes in rotation.  min(limit, matches) must come back however many day prefixes
+    the window has compared to the limit."""
+    u = ["%032x" % (0x5a00 + i) for i in range(16)]
+    ta, tb = [["tenant", pv.s("a")]], [["tenant", pv.s("b")]]
+    out = []
+    k = 0
+    # (day folders holding the recordings, window in days [first, last])
+    for busy, (d0, d1) in (((7,), (0, 7)), ((0,), (0, 7)), ((3,), (1, 6)), ((2, 5), (0, 7)), ((4,), (3, 5)), ((6,), (2, 6))):
+        h = []
+        for j in range(6):
+            d = busy[j % len(busy)]
+            t = d * DAY + (j + 1) * H
+            meta = (ta if j != 4 else tb) + ([[INC, pv.b(True)]] if j == 5 else [])
+            h.append(dict(cat="Op", uuid=u[j], ct=t, t=t, meta=meta))
+        h.append(dict(cat="OpX", uuid=u[6], ct=busy[0] * DAY + 8 * H, t=busy[0] * DAY + 8 * H, meta=ta))
+        h.sort(key=lambda e: e["t"])
+        for lim in (2, 3, 5, 50, None):
+            for f, skip, rnd, sched in ((None, None, 0, [0]), (ta_filter(), None, 0, [0]), (None, True, 0, [0]),
+                                        (None, None, 2, [1, 0, 2])):
+                if lim in (50, None) and (f or rnd):
+                    continue
+                out.append(dict(hist=h, kp=KPS[k % len(KPS)], cat="Op", filter=f, limit=lim, random=rnd, sched=sched, seed=0,
+                                start=d0 * DAY + 30 * 60 * 10**6, end=d1 * DAY + 23 * H, now=8 * DAY, skip=skip))
+                k += 1
+        # the default end (now) instead of an explicit one: "everything since a week ago"
+        out.append(dict(hist=h, kp=KPS[k % len(KPS)], cat="Op", filter=None, limit=2, random=0, sched=[0], seed=0,
+                        start=d0 * DAY, end=None, now=7 * DAY + 23 * H, skip=True))
+    return out
+
+
+def reader_stream():
+    """Deterministic (round 7): lookups interleaved with the saves.  A recording is saved, looked up, saved AGAIN with other
+    metadata (tenant a -> b, b -> a, incomplete True -> False, a key dropped), and looked up again - the saves go through
+    one set of cassette objects, the lookups through a SECOND cassette object on the same directory / bucket (recorder and
+    player of examples/flask; own = false) or through the saving objects themselves (own = true).  The last lookup must
+    answer from what is saved now."""
+    u = ["%032x" % (0x4e00 + i) for i in range(8)]
+    ta, tb = [["tenant", pv.s("a")]], [["tenant", pv.s("b")]]
+    h = [dict(cat="Op", uuid=u[0], ct=1 * H, t=1 * H, meta=ta),
+         dict(cat="Op", uuid=u[1], ct=2 * H, t=2 * H, meta=tb),
+         dict(cat="Op", uuid=u[2], ct=3 * H, t=3 * H, meta=ta + [[INC, pv.b(True)]]),
+         dict(cat="OpX", uuid=u[3], ct=4 * H, t=4 * H, meta=ta),
+         dict(cat="Op", uuid=u[4], ct=5 * H, t=5 * H, meta=ta + [["n", pv.i(1)]]),
+         # ---- looked up here (probe before index 5), then saved again:
+         dict(cat="Op", uuid=u[0], ct=1 * H, t=6 * H, meta=tb),                            # a -> b: must leave tenant=a
+         dict(cat="Op", uuid=u[1], ct=2 * H, t=7 * H, meta=ta),                            # b -> a: must join tenant=a
+         dict(cat="Op", uuid=u[2], ct=3 * H, t=8 * H, meta=ta + [[INC, pv.b(False)]]),     # completed: default lookup lists it
+         dict(cat="Op", uuid=u[4], ct=5 * H, t=9 * H, meta=ta),                            # key n dropped
+         dict(cat="Op", uuid=u[5], ct=10 * H, t=10 * H, meta=tb)]                          # a new one after the probes
+    lookups = [(ta_filter(), None, None), (ta_filter(), None, True), (None, None, True), ([["tenant", pv.s("b")]], None, False),
+               ([["n", pv.i(1)]], None, None), (ta_filter(), 2, None), (None, None, None),
+               ([[INC, pv.b(True)]], None, None)]
+    out = []
+    k = 0
+    for own in (False, True):
+        for probes in ([5], [0, 5, 7], [5, 10], [3, 6, 8, 9]):
+            for f, lim, skip in lookups:
+                out.append(dict(hist=h, kp=KPS[k % len(KPS)], cat="Op", filter=f, limit=lim, random=0, sched=[0], seed=0,
+                                start=None, end=None, now=11 * H, skip=skip, reader=dict(probes=probes, own=own)))
+                k += 1
+    return out
+
+
+def reader_copies(rng, cases, n):
+    """n lookups of the random streams whose history saves a recording more than once, again with earlier lookups of a
+    second cassette object (or the saving one) at random points of the history"""
+    pool = [c for c in cases if c.get("kind") != "cat" and not c.get("outside_domain") and not c.get("failed") and
+            not c.get("tz") and not c.get("reader") and len({e["uuid"] for e in c["hist"]}) < len(c["hist"])]
+    out = []
+    for c in (rng.sample(pool, n) if len(pool) > n else pool):
+        m = len(c["hist"])
+        out.append(dict(c, reader=dict(probes=sorted(set(rng.randrange(0, m + 1) for _ in range(rng.randrange(1, 4)))),
+                                       own=rng.random() < 0.3)))
+    return out
+
+
 FAILED_BASE = 4500     # ordinals of recordings none of whose saves succeeded (harness/impl/lookup_driver.py)
 
 
@@ -531,6 +619,11 @@ def generate(rng, tier):
             if j % 4 == 3 and (q["start"] is not None or q["end"] is not None):
                 q["tz"] = TZS[(k + j) % len(TZS)]
             cases.append(q)
+    # round 7: windows of several day folders whose matches sit in one or two of them, under a limit
+    cases += sparse_window_stream()
+    # round 7: lookups interleaved with the saves, through a second cassette object on the same directory / bucket
+    rng_r = random.Random(rng.getrandbits(64))
+    cases += reader_stream() + reader_copies(rng_r, cases, 60 if tier == "quick" else 600)
     return cases
 
 
@@ -673,10 +766,22 @@ def direct(case, obs):
         if obs.get("tz_offset") != TZ_OFFSETS.get(case["tz"]):
             return [("driver", "the driver did not run this case in time zone %s (utc offset seen: %s s)" %
                      (case["tz"], obs.get("tz_offset")))]
-        return [(sig, msg + "  [process time zone TZ=%s (utc offset %+d s); the lookup window start=%s end=%s is naive "
+        return [(sig, msg + reader_note(case, obs) + "  [process time zone TZ=%s (utc offset %+d s); the lookup window start=%s end=%s is naive "
                  "UTC: what is listed must not depend on the zone of the process]" %
                  (case["tz"], obs["tz_offset"], case["start"], case["end"])) for sig, msg in direct_utc(case, obs)]
+    if case.get("reader"):
+        return [(sig, msg + reader_note(case, obs)) for sig, msg in direct_utc(case, obs)]
     return direct_utc(case, obs)
+
+
+def reader_note(case, obs):
+    r = case.get("reader")
+    if not r:
+        return ""
+    return ("  [the same lookup was also made before save number %s of the history (answers then: %s) and all lookups went "
+            "through %s: a lookup answers from what is saved now]" %
+            (r["probes"], obs.get("earlier_lookups"), "the saving cassette objects" if r.get("own") else
+             "a second cassette object on the same directory / bucket"))
 
 
 def direct_utc(case, obs):
@@ -750,6 +855,13 @@ def features(case):
          "filter=" + ("none" if not case["filter"] else "+".join(sorted(v["t"] for _, v in case["filter"])))}
     if any(has_class_pattern(v) for _, v in (case["filter"] or [])):
         f.add("filter-pattern-with-character-class")
+    if case.get("reader"):
+        f.add("earlier-lookups-interleaved-with-the-saves:" + ("saving-object" if case["reader"].get("own") else
+                                                                "second-cassette-object"))
+        seen_before = {e["uuid"] for i, e in enumerate(case["hist"]) if any(i < p for p in case["reader"]["probes"])}
+        if any(e["uuid"] in seen_before and any(i >= p for p in case["reader"]["probes"]) and
+               sum(1 for x in case["hist"][:i] if x["uuid"] == e["uuid"]) for i, e in enumerate(case["hist"])):
+            f.add("recording-saved-again-after-a-lookup-saw-it")
     if case.get("tz"):
         f.add("process-time-zone=%s" % case["tz"])
         if case["start"] is not None or case["end"] is not None:
@@ -800,12 +912,19 @@ def shrink_candidates(case):
     for j in range(len(fl)):
         yield dict(case, failed=fl[:j] + fl[j + 1:])
     for i in range(len(h)):
-        yield dict(case, hist=h[:i] + h[i + 1:], failed=[dict(f, after=f["after"] - (1 if f["after"] > i else 0)) for f in fl])
+        c2 = dict(case, hist=h[:i] + h[i + 1:], failed=[dict(f, after=f["after"] - (1 if f["after"] > i else 0)) for f in fl])
+        if case.get("reader"):
+            c2["reader"] = dict(case["reader"], probes=sorted(set(p - (1 if p > i else 0) for p in case["reader"]["probes"])))
+        yield c2
     if case["filter"]:
         for i in range(len(case["filter"])):
             yield dict(case, filter=case["filter"][:i] + case["filter"][i + 1:])
     if case.get("tz"):
         yield {k: v for k, v in case.items() if k != "tz"}
+    if case.get("reader") and len(case["reader"]["probes"]) > 1:
+        for j in range(len(case["reader"]["probes"])):
+            pr = case["reader"]["probes"]
+            yield dict(case, reader=dict(case["reader"], probes=pr[:j] + pr[j + 1:]))
     if case["random"]:
         yield dict(case, random=0)
     if case["start"] is not None or case["end"] is not None:
@@ -833,7 +952,10 @@ MANIFEST = dict(
          '(model side: a Gallina transcription of fnmatch.translate, direct predicate: Python fnmatch); histories in which '
          'saves fail part-way on S3 are included; lookups with a time window are also run in processes whose time zone is '
          'west / east of UTC (the window is naive UTC: same answer), and categories containing glob metacharacters '
-         '([...], *, ?) are looked up on all three cassettes (a category is a literal).',
+         '([...], *, ?) are looked up on all three cassettes (a category is a literal); limited lookups over windows of '
+         'several day folders most of which are empty (matches concentrated in one or two days) must still return '
+         'min(limit, matches) ids; lookups made through a second cassette object on the same directory / bucket (or the '
+         'saving one) after earlier lookups of that object and re-saves in between answer from what is saved now.',
     note='Trusted: Coq kernel + vm_compute; hand-written models of the three iter_recording_ids, iter_keys, '
          'find_matching_recording_ids; the C14 matcher model; strftime/listdir/shuffle/choice/uuid as oracles; '
          'correspondence harness. limit=0 divergence (no limit on memory/file, nothing on S3) is an observation.',
